@@ -18,7 +18,7 @@ Section ExprInd.
   Definition foreign (e : expr Q) : bool :=
     match e with
     | ELike _ _ _ | EIn _ _ _ | EInSub _ _ _ | EBetween _ _ _ _ | ESub _ | EExists _
-    | EAgg _ _ | ECall _ _ _ => true
+    | EAgg _ _ | ECall _ _ _ | ETuple _ => true
     | _ => false
     end.
 
@@ -74,6 +74,7 @@ Section ExprInd.
     | EExists q => HForeign (EExists q) eq_refl
     | EAgg f a => HForeign (EAgg f a) eq_refl
     | ECall q n a => HForeign (ECall q n a) eq_refl
+    | ETuple l => HForeign (ETuple l) eq_refl
     end.
 End ExprInd.
 
